@@ -59,7 +59,7 @@ Definition chunk_pieces (b : cbody) : list bytes :=
   match b with BNone => [] | BBytes d => [d] | BPieces ps => ps end.
 
 Definition body_wire (r : creq) : bytes :=
-  if writer_chunking_enabled (c_chunked r) then chunked_body (chunk_pieces (c_body r))
+  if req_chunking r then chunked_body (chunk_pieces (c_body r))
   else body_bytes (c_body r).
 
 Lemma concat_enc1_snoc ds : concat (map enc1 (ds ++ [[]])) = concat (map enc1 ds).
@@ -109,31 +109,79 @@ Proof.
   rewrite !map_app, concat_app. cbn [map concat]. rewrite app_nil_r. reflexivity.
 Qed.
 
-Lemma body_ops_shape b : exists ops t,
-  body_ops b = ops ++ [t] /\ forallb body_op ops = true /\ term_op t = true /\ concat (map op_data (ops ++ [t])) = body_bytes b /\ concat (map enc1 (map op_data (ops ++ [t]))) = concat (map enc1 (chunk_pieces b)).
+Lemma wrun_head_chunked_len H ops t :
+  H <> [] -> forallb body_op ops = true -> term_op t = true ->
+  snd (wrun winit (WEnableChunking :: WHeaders H :: WSetLength None :: ops ++ [t])) =
+  H ++ concat (map enc1 (map op_data (ops ++ [t]))) ++ last_chunk.
 Proof.
-  destruct b as [|d|ps].
-  - exists [], WSetEof. repeat split; reflexivity.
-  - destruct d as [|a d'].
-    + exists [], WSetEof. repeat split; reflexivity.
-    + exists [WWrite (a :: d')], (WEof []). cbn [body_ops app map op_data concat body_bytes chunk_pieces enc1].
-      repeat split; try reflexivity. rewrite !app_nil_r. reflexivity.
-  - exists (map WWrite ps), (WEof []). cbn [body_ops body_bytes chunk_pieces].
-    split; [reflexivity|]. split; [apply body_op_writes|]. split; [reflexivity|].
-    rewrite !map_app, op_data_writes. cbn [map op_data]. split.
-    + rewrite concat_app. cbn [concat]. rewrite !app_nil_r. reflexivity.
-    + rewrite concat_app. cbn [enc1 concat]. rewrite !app_nil_r. reflexivity.
+  intros HH Hb Ht.
+  rewrite (wrun_silent winit WEnableChunking (mkW None true None false false)) by reflexivity.
+  rewrite (wrun_silent _ (WHeaders H) (mkW None true (Some H) false false)) by reflexivity.
+  rewrite (wrun_silent _ (WSetLength None) (mkW None true (Some H) false false)) by reflexivity.
+  rewrite (proj1 (head_first_once None true H ops HH Hb) t Ht). cbn [snd].
+  change (mkW None true None true false) with (sB None true).
+  rewrite wrun_app, wrun_B_chunked by exact Hb. cbv iota beta.
+  rewrite wrun_one, wstep_B_chunked_term by exact Ht. cbn [fst snd].
+  rewrite !map_app, concat_app. cbn [map concat]. rewrite app_nil_r, <- app_assoc. reflexivity.
 Qed.
 
+Lemma wrun_head_plain_len H n ops t :
+  H <> [] -> forallb body_op ops = true -> term_op t = true -> op_data t = [] ->
+  lenN (concat (map op_data ops)) = n ->
+  snd (wrun winit (WHeaders H :: WSetLength (Some n) :: ops ++ [t])) = H ++ concat (map op_data ops).
+Proof.
+  intros HH Hb Ht Hd Hn.
+  rewrite (wrun_silent winit (WHeaders H) (mkW None false (Some H) false false)) by reflexivity.
+  rewrite (wrun_silent _ (WSetLength (Some n)) (mkW (Some n) false (Some H) false false)) by reflexivity.
+  rewrite (proj1 (head_first_once (Some n) false H ops HH Hb) t Ht). cbn [snd].
+  change (mkW (Some n) false None true false) with (sB (Some n) false).
+  rewrite wrun_app, wrun_B_length by exact Hb. cbv iota beta.
+  rewrite wrun_one, wstep_B_plain_term by exact Ht. cbn [fst snd].
+  rewrite Hd, app_nil_r, firstn_short by lia. reflexivity.
+Qed.
+
+Lemma body_ops_shape b : exists ops t,
+  body_ops b = ops ++ [t] /\ forallb body_op ops = true /\ term_op t = true /\ concat (map op_data (ops ++ [t])) = body_bytes b /\ concat (map enc1 (map op_data (ops ++ [t]))) = concat (map enc1 (chunk_pieces b)) /\
+  (should_write b = true -> op_data t = []) /\ (should_write b = false -> ops = []).
+Proof.
+  destruct b as [|d|ps].
+  - exists [], WSetEof. repeat split; try reflexivity; discriminate.
+  - destruct d as [|a d'].
+    + exists [], WSetEof. repeat split; try reflexivity; discriminate.
+    + exists [WWrite (a :: d')], (WEof []). cbn [body_ops app map op_data concat body_bytes chunk_pieces enc1].
+      repeat split; try reflexivity; try discriminate. rewrite !app_nil_r. reflexivity.
+  - exists (map WWrite ps), (WEof []). cbn [body_ops body_bytes chunk_pieces].
+    split; [reflexivity|]. split; [apply body_op_writes|]. split; [reflexivity|].
+    rewrite !map_app, op_data_writes. cbn [map op_data].
+    assert (A1 : concat (ps ++ [[]]) = concat ps) by (rewrite concat_app; cbn [concat]; rewrite !app_nil_r; reflexivity).
+    assert (A2 : concat (map enc1 ps ++ [enc1 []]) = concat (map enc1 ps))
+      by (rewrite concat_app; cbn [enc1 concat]; rewrite !app_nil_r; reflexivity).
+    split; [exact A1|]. split; [exact A2|]. split; [intros _; reflexivity|discriminate].
+Qed.
+
+Lemma concat_snoc_nil (ds : list bytes) t : t = [] -> concat (ds ++ [t]) = concat ds.
+Proof. intros ->. rewrite concat_app. cbn [concat]. rewrite !app_nil_r. reflexivity. Qed.
+
 Lemma wire_shape r head :
-  head <> [] ->
+  head <> [] -> length_ok r = true ->
   snd (wrun winit (client_ops r head)) = head ++ body_wire r.
 Proof.
-  intro HH. unfold client_ops, body_wire.
-  destruct (body_ops_shape (c_body r)) as (ops & t & -> & Hb & Ht & E1 & E2).
-  destruct (writer_chunking_enabled (c_chunked r)).
-  - cbn [app]. rewrite wrun_head_chunked by assumption. rewrite E2. reflexivity.
-  - cbn [app]. rewrite wrun_head_plain by assumption. rewrite E1. reflexivity.
+  intros HH Hlen. unfold client_ops, client_ops_len, body_wire, client_counts_declared_length. rewrite andb_true_r.
+  unfold length_ok in Hlen.
+  destruct (body_ops_shape (c_body r)) as (ops & t & -> & Hb & Ht & E1 & E2 & Hw1 & Hw0).
+  destruct (should_write (c_body r)) eqn:Esw.
+  - specialize (Hw1 eq_refl).
+    destruct (header_content_length r) as [[n|]|]; [| |discriminate].
+    + apply andb_true_iff in Hlen as [Hc Hn]. apply negb_true_iff in Hc. rewrite Hc. cbn [app].
+      rewrite map_app, (concat_snoc_nil _ _ Hw1) in E1.
+      rewrite wrun_head_plain_len; [rewrite E1; reflexivity|assumption|assumption|assumption|assumption|].
+      rewrite E1. apply N.eqb_eq in Hn. symmetry. exact Hn.
+    + cbn [orb negb] in Hlen. rewrite orb_false_r in Hlen. rewrite Hlen. cbn [app].
+      rewrite wrun_head_chunked_len by assumption. rewrite E2. reflexivity.
+  - rewrite (Hw0 eq_refl) in *. cbn [app].
+    destruct (req_chunking r).
+    + cbn [app]. pose proof (wrun_head_chunked head [] t HH eq_refl Ht) as X. cbn [app] in X, E2. rewrite X, E2. reflexivity.
+    + cbn [app]. pose proof (wrun_head_plain head [] t HH eq_refl Ht) as X. cbn [app] in X, E1. rewrite X, E1. reflexivity.
 Qed.
 
 (* ------------------------------------------------------------------ validity, unpacked *)
@@ -147,6 +195,7 @@ Record valid_facts (lim : limits) (r : creq) : Prop := {
   vf_ws : has_header h_sec_websocket_key1 (wire_headers r) = false;
   vf_conn : list_eqb (map upper (c_method r)) m_CONNECT = false;
   vf_frame : framing_ok r = true;
+  vf_len : length_ok r = true;
   vf_l0 : lenN (u8 (status_line r)) + 1 <= max_line lim;
   vf_lf : forallb (fun kv => lenN (hline kv) + 1 <=? max_field lim) (c_headers r) = true;
   vf_cnt : lenN (c_headers r) + 3 <= max_headers lim;
@@ -160,7 +209,7 @@ Proof.
   unfold limits_ok in H. repeat (apply andb_true_iff in H as [H ?]).
   constructor; try assumption; try (apply negb_true_iff; assumption); try lia.
   - intro E. rewrite E in Hv. discriminate.
-  - intro E. rewrite E in H6. discriminate.
+  - intro E. match goal with Hx : negb (lenN (c_headers r) =? 0) = true |- _ => rewrite E in Hx; discriminate end.
 Qed.
 
 (* ------------------------------------------------------------------ the blank line: start_message *)
@@ -169,15 +218,15 @@ Definition mt_of (lim : limits) (r : creq) : N := max_headers lim - lenN (head_l
 Definition inflight1 (lim : limits) : N := if 0 <? max_queue lim then 1 else 0.
 
 Definition payload_for (lim : limits) (r : creq) : option pstate :=
-  if writer_chunking_enabled (c_chunked r) then Some (mkP (PChunked CSize) [] [] (mt_of lim r))
+  if req_chunking r then Some (mkP (PChunked CSize) [] [] (mt_of lim r))
   else if nonempty (body_bytes (c_body r)) then Some (mkP (PLength (lenN (body_bytes (c_body r)))) [] [] (mt_of lim r))
   else None.
 
 Definition has_payload (r : creq) : bool :=
-  writer_chunking_enabled (c_chunked r) || nonempty (body_bytes (c_body r)).
+  req_chunking r || nonempty (body_bytes (c_body r)).
 
 Lemma expected_msg_derived lim r : valid lim r = true ->
-  m_headers (expected_msg r) = wire_headers r /\ m_upgrade (expected_msg r) = false /\ m_chunked (expected_msg r) = writer_chunking_enabled (c_chunked r) /\ m_method (expected_msg r) = map upper (c_method r).
+  m_headers (expected_msg r) = wire_headers r /\ m_upgrade (expected_msg r) = false /\ m_chunked (expected_msg r) = req_chunking r /\ m_method (expected_msg r) = map upper (c_method r).
 Proof.
   intro Hv. destruct (valid_unpack lim r Hv).
   destruct (derive_framed r vf_frame0 vf_upg0) as (hi & Hd & Hu & Hc).
@@ -201,7 +250,7 @@ Proof.
   fold (mt_of lim r). unfold payload_for, has_payload, inflight1, hst, bst.
   cbn [in_flight upgraded pending_upgrade].
   unfold framing_ok in vf_frame0.
-  destruct (writer_chunking_enabled (c_chunked r)) eqn:Ech.
+  destruct (req_chunking r) eqn:Ech.
   - destruct (get_header h_transfer_encoding (wire_headers r)); [|discriminate].
     apply andb_true_iff in vf_frame0 as [_ Hcl]. apply negb_true_iff in Hcl.
     rewrite (get_header_none _ _ Hcl). rewrite orb_true_r. cbn [orb].
@@ -270,7 +319,7 @@ Lemma body_prefixes lim o r : valid lim r = true ->
           (ev_msg (expected_msg r) (has_payload r) []).
 Proof.
   intros Hv x y E. destruct (valid_unpack lim r Hv).
-  unfold body_wire, payload_for in *. destruct (writer_chunking_enabled (c_chunked r)).
+  unfold body_wire, payload_for in *. destruct (req_chunking r).
   - eapply chunked_body_prefixes; [apply pieces_hex_ok; exact Hv|assumption|assumption|apply mt_pos; exact Hv|exact E].
   - destruct (body_bytes (c_body r)) as [|a d'] eqn:Eb.
     + cbn [nonempty]. destruct x; [|discriminate].
@@ -286,7 +335,7 @@ Lemma body_run lim o r f : valid lim r = true ->
 Proof.
   intros Hv Hf. destruct (valid_unpack lim r Hv).
   unfold body_wire, payload_for, has_payload, expected_rec, final_state in *.
-  destruct (writer_chunking_enabled (c_chunked r)) eqn:Ech.
+  destruct (req_chunking r) eqn:Ech.
   - rewrite chunked_body_run; [|apply pieces_hex_ok; exact Hv|assumption|apply mt_pos; exact Hv|exact Hf].
     cbn [orb]. rewrite deliver_msg. destruct (chunk_pieces_view (c_body r)) as [-> ->]. reflexivity.
   - cbn [orb]. destruct (body_bytes (c_body r)) as [|a d'] eqn:Eb.
@@ -323,12 +372,14 @@ Proof.
   intros Hs Hv. destruct (valid_unpack lim r Hv).
   unfold client_serialize in Hs. destruct (method_ok (c_method r)); [|discriminate].
   destruct (serialize_headers (status_line r) (c_headers r)) as [head|] eqn:Eh; [|discriminate].
+  destruct (header_content_length r) as [cl|] eqn:Ecl; [|discriminate].
   apply Some_inj in Hs. exists head. split; [reflexivity|].
   destruct (head_shape r head vf_hne0 vf_names0 Eh) as (Hhead & Hsafe & _ & _).
   split; [exact Hsafe|].
   rewrite <- Hs, wire_shape.
   - rewrite Hhead, lines_bytes_cons. repeat (rewrite <- app_assoc; cbn [app]). reflexivity.
   - rewrite Hhead, lines_bytes_cons. intro E. apply app_eq_nil in E as [E _]. apply app_eq_nil in E as [_ E]. discriminate.
+  - exact vf_len0.
 Qed.
 
 Theorem wire_prefixes lim o r w :
@@ -447,12 +498,13 @@ Qed.
 
 Lemma wrun_head_open H ops :
   H <> [] -> forallb body_op ops = true ->
-  let w := snd (wrun winit (WEnableChunking :: WHeaders H :: ops)) in
+  let w := snd (wrun winit (WEnableChunking :: WHeaders H :: WSetLength None :: ops)) in
   w = [] \/ w = H ++ concat (map enc1 (map op_data ops)).
 Proof.
   intros HH Hb.
   rewrite (wrun_silent winit WEnableChunking (mkW None true None false false)) by reflexivity.
   rewrite (wrun_silent _ (WHeaders H) (mkW None true (Some H) false false)) by reflexivity.
+  rewrite (wrun_silent _ (WSetLength None) (mkW None true (Some H) false false)) by reflexivity.
   destruct (proj2 (head_first_once None true H ops HH Hb)) as (sf & E & Hnil).
   rewrite E. cbn [snd]. change (mkW None true None true false) with (sB None true) in *.
   rewrite wrun_B_chunked in * by exact Hb. cbn [snd] in *.
@@ -467,7 +519,7 @@ Proof. destruct b; reflexivity. Qed.
 Definition not_completed (s : pst) (a : acc) : Prop := (s = init /\ a = []) \/ payload s <> None.
 
 Theorem aborted_body_not_completed lim o r k w' :
-  writer_chunking_enabled (c_chunked r) = true ->
+  req_chunking r = true ->
   client_serialize r <> None -> valid lim r = true ->
   client_serialize_aborted r k = Some w' ->
   forall segs, concat segs = w' ->
@@ -482,7 +534,7 @@ Proof.
   destruct (head_shape r head vf_hne0 vf_names0 Hh) as (Hhead & _ & _ & _).
   assert (HH : head <> []).
   { rewrite Hhead, lines_bytes_cons. intro E. apply app_eq_nil in E as [E _]. apply app_eq_nil in E as [_ E]. discriminate. }
-  unfold aborted_ops, write_eof_only_after_success in Hab. rewrite Hch, app_nil_r in Hab. cbn [app] in Hab.
+  unfold aborted_ops, write_eof_only_after_success, client_counts_declared_length in Hab. rewrite Hch, app_nil_r in Hab. cbn [app] in Hab.
   set (ps := body_pieces (c_body r)) in *.
   pose proof (wrun_head_open head (map WWrite (firstn k ps)) HH (body_op_writes _)) as Hw. cbv zeta in Hw.
   rewrite Hab, op_data_writes in Hw.
@@ -512,4 +564,16 @@ Proof.
       + rewrite (Hopen f' Hf'). eexists _, _. split; [reflexivity|]. right. discriminate. }
   destruct Hone as (s & a & Hfeed & Hnc). exists s, a. split; [|exact Hnc].
   apply (all_segmentations lim o w'); assumption.
+Qed.
+
+(* ------------------------------------------------------------------ declared length vs body (fix ef4bcfa) *)
+(* _write_bytes raises ClientPayloadError when the body source ends short of the declared Content-Length; a valid
+   request never takes that path: nothing is missing when the body is exhausted *)
+Lemma valid_no_shortfall lim r : valid lim r = true -> body_shortfall r = 0.
+Proof.
+  intro Hv. destruct (valid_unpack lim r Hv). unfold length_ok in vf_len0. unfold body_shortfall.
+  destruct (header_content_length r) as [[n|]|]; try reflexivity.
+  apply andb_true_iff in vf_len0 as [_ Hn]. apply N.eqb_eq in Hn.
+  destruct (client_counts_declared_length && should_write (c_body r)); [|reflexivity].
+  change (body_bytes_of (c_body r)) with (body_bytes (c_body r)). lia.
 Qed.
